@@ -88,8 +88,10 @@ def measure_base_logs(uc):
     return np.array(rows)
 
 
-def known_base(base):
+def known_base(base, kind):
     lg = np.log10(np.asarray(base))
+    if kind == 'seed':
+        return bool(np.abs(lg).max() <= 2.0)
     return bool((np.abs(G.BASE_LOGS - lg).max(axis=1) < 1e-6).any())
 
 
@@ -236,7 +238,6 @@ def rel_close(a, b, rtol):
 def run_expressions(ctx, uc):
     rec = ctx.rec
     n = ctx.pick(1000, 5000)
-    worst = 0.0
     for i in ctx.cases('exprs', n):
         rng = ctx.rng
         c = G.make_case(rng, i)
@@ -252,7 +253,7 @@ def run_expressions(ctx, uc):
         if i < 24:
             rec.sample(dict(e1=e1, e2=e2, dim=q1.d, value=x, classes=c['sig']))
         inexact = q1.inexact or q2.inexact
-        configs = G.configs_for_case(i, *ctx.pick((18, 5), (18, 5)))
+        configs = G.configs_for_case(i, 18, 5, rng, ctx.pick(0, 3))
         x_before = np.array(xa, copy=True)
         ys = []
         try:
@@ -264,7 +265,7 @@ def run_expressions(ctx, uc):
                 if g.exc is not None:
                     continue
                 base = base_of(uc)
-                if not (all(b > 0 and math.isfinite(b) for b in base) and known_base(base)):
+                if not (all(b > 0 and math.isfinite(b) for b in base) and known_base(base, cfg[0])):
                     rec.count('exempt:base-units-not-among-those-the-generator-bounded')
                     continue
                 rec.count('config:' + cfg[0])
@@ -282,7 +283,7 @@ def run_expressions(ctx, uc):
                     vals.append(exp)
                     rec.close(0.0, got, exp, B_PARSE, 'parse:precedence:' + c['ws'], rtol=1e-13, expr=e, config=ck)
                     pred = U.predicted(q, base)
-                    rec.close(0.0, got, pred, B_TABLE, 'parse:dimension:' + ck, rtol=1e-7 if q.inexact else 1e-12,
+                    rec.close(0.0, got, pred, B_TABLE, 'parse:dimension:' + cfg[0], rtol=1e-7 if q.inexact else 1e-12,
                               expr=e, config=cfg, dim=q.d)
                 if vals[0] is None or vals[1] is None:
                     continue
@@ -309,12 +310,16 @@ def run_expressions(ctx, uc):
             pred = xa * (q1.v / q2.v)
         rec.close(0.0, ref, pred, C_SI, 'differential:si-prediction', rtol=1e-7 if inexact else 1e-12, e1=e1, e2=e2, config=cfg0)
         for ck, cfg, y in ys[1:]:
-            rec.close(0.0, y, ref, C_DIFF, 'differential:' + ck, rtol=1e-12, e1=e1, e2=e2, config=cfg, reference=cfg0)
+            rec.close(0.0, y, ref, C_DIFF, 'differential:' + cfg[0], rtol=1e-12, e1=e1, e2=e2, config=cfg, reference=cfg0)
             rec.count('differential:comparisons')
             nz = ref != 0
             if nz.any() and y.shape == ref.shape:
-                worst = max(worst, float(np.max(np.abs(y[nz] / ref[nz] - 1))))
-    rec.count('differential:worst-relative-spread-x1e18', int(worst * 1e18))
+                with np.errstate(all='ignore'):
+                    spread = float(np.max(np.abs(y[nz] / ref[nz] - 1)))
+                for b in (1e-15, 1e-14, 1e-13, 1e-12):
+                    if spread <= b:
+                        rec.count('differential:relative-spread<=%g' % b)
+                        break
 
 
 def run_named(ctx, uc):
